@@ -388,3 +388,53 @@ PROPERTY_INFO = {
         "not_decided": ["1/f^alpha shape within ~1 dB between the corners: transcendental and approximate; bounded grid only"],
     },
 }
+
+
+def bounded_c18(tier, seed):
+    """C18 stand-in (bounded): fftnoise magnitudes for odd/even lengths, band-limited noise has no
+    power out of band, white variance, 1/f^alpha shaping filter within 1.5 dB on the interior"""
+    import numpy as np
+    import speckit.noise as nz
+
+    rng = np.random.default_rng(seed)
+    fails, n = [], 0
+    for N in [2, 3, 4, 5, 8, 9, 16, 17, 64, 65, 250, 251]:
+        mag = rng.uniform(0.1, 2.0, N // 2 + 1)
+        f = np.zeros(N, dtype=complex)
+        f[: N // 2 + 1] = mag
+        f[-1 : -1 - (N - 1) // 2 : -1] = mag[1 : (N - 1) // 2 + 1]
+        x = nz.fftnoise(f.copy(), rng=np.random.default_rng(seed + N))
+        n += 1
+        F = np.fft.fft(x)
+        if np.iscomplexobj(x) or np.max(np.abs(np.abs(F) - np.abs(f))) > 1e-9:
+            fails.append({"label": "C18.fftnoise_magnitudes", "input": {"N": N}, "detail": f"max |DFT| error {np.max(np.abs(np.abs(F) - np.abs(f))):.3g}"})
+    for N, fs, lo, hi in [(256, 100.0, 10.0, 20.0), (255, 100.0, 0.0, 50.0), (256, 100.0, 30.0, 50.0), (64, 1.0, 0.1, 0.5)]:
+        x = nz.band_limited_noise(lo, hi, samples=N, samplerate=fs, rng=np.random.default_rng(seed))
+        fr = np.abs(np.fft.fftfreq(N, 1 / fs))
+        F = np.abs(np.fft.fft(x))
+        n += 1
+        inb = (fr >= lo) & (fr <= hi)
+        if np.max(F[~inb], initial=0) > 1e-9 or np.max(np.abs(F[inb] - 1), initial=0) > 1e-9:
+            fails.append({"label": "C18.band_limited", "input": {"N": N, "band": [lo, hi]}, "detail": "spectrum is not 1 in band / 0 out of band"})
+    w = nz.white_noise(50.0, psd=3.0, seed=seed)
+    n += 1
+    if abs(w.rms**2 - 150.0) > 1e-9:
+        fails.append({"label": "C18.white_variance", "input": {}, "detail": "rms^2 != psd*fs"})
+    for alpha in ([0.01, 0.5, 1.0, 1.5, 2.0] if tier == "quick" else list(np.linspace(0.01, 2.0, 9))):
+        for fs, fmin, fmax in [(100.0, 0.01, 10.0), (1000.0, 0.1, 400.0), (10.0, 1e-3, 2.0)]:
+            g = nz.alpha_noise(fs, fmin, fmax, alpha, init_filter=False, seed=1)
+            fr = np.logspace(np.log10(3 * g.fmin), np.log10(g.fmax / 3), 200)
+            z = np.exp(-2j * np.pi * fr / fs)
+            H = np.ones_like(z)
+            for (a0, a1), (b0, b1) in zip(g._a_coeffs, g._b_coeffs):
+                H = H * (a0 + a1 * z) / (b0 + b1 * z)
+            psd = (np.abs(H) * g._scaling) ** 2
+            n += 1
+            err = np.max(np.abs(10 * np.log10(psd * fr**alpha)))
+            if err > 1.5:
+                fails.append({"label": "C18.shape", "input": {"alpha": float(alpha), "fs": fs, "fmin": fmin, "fmax": fmax}, "detail": f"deviation from f^-alpha {err:.2f} dB on the interior"})
+    return {"evaluations": n, "bound": "12 lengths, 4 bands, alpha grid x 3 (fs,fmin,fmax), 200 frequencies on [3 fmin_eff, fmax_eff/3]", "failures": fails[:5], "n_failures": len(fails)}
+
+
+BOUNDED["C18.grid"] = bounded_c18
+PROPERTY_INFO["C18"]["bounded"] = ["C18.grid"]
